@@ -125,6 +125,19 @@ def directed(name, quick):
                                 P.add(c, PB.M(q))
                                 cs.append(c)
                             out.append(P.steps)
+    if name == 'unroll3':
+        # three parallel operations of unequal length (every order of the lengths), optionally a fourth chained one, repeated
+        import itertools
+        for perm in itertools.permutations((2, 12, 6)):
+            for rep in (2, 3):
+                for tail in (False, True):
+                    P = PB.Prog()
+                    m = P.new(rep=rep)
+                    hs = [P.add(m, PB.W(q, d)) for q, d in enumerate(perm)]
+                    if tail:
+                        P.add(m, PB.W(3, 4), ref=hs[0], rt='FB')
+                    P.act('Apply', m)
+                    out.append(P.steps)
     if name == 'acqdir':
         # measurements before / inside / after a repeated block; the indices are read at some point of the build, then the
         # block is unrolled (already indexed measurements move) and the indices are read again
@@ -174,11 +187,11 @@ def directed(name, quick):
 
 
 SOURCES = {
-    'C01': ('flat', 'nest', 'chan', 'deep', 'unroll2', 'sim', 'repotests', 'library'),
+    'C01': ('flat', 'nest', 'chan', 'deep', 'unroll2', 'unroll3', 'sim', 'repotests', 'library'),
     'C02': ('flat', 'nest', 'chan', 'deep', 'obsnest', 'sim', 'repotests', 'library'),
     'C04': ('flat', 'nest', 'sim', 'repotests'),
     'C05': ('kinds', 'copyapplied', 'nest', 'sim'),
-    'C06': ('unroll', 'unroll2', 'nest', 'sim', 'library'),
+    'C06': ('unroll', 'unroll2', 'unroll3', 'nest', 'sim', 'library'),
     'C07': ('acq', 'acqdir', 'sim'),
     'C11': ('flatten', 'flatdir', 'sim', 'library'),
     'C03': ('hist', 'plothist', 'acq', 'acqdir', 'obsnest', 'sim'),
@@ -279,7 +292,7 @@ M_Init == /\\ heap = DoNewCircuit(DoAddOp(DoNewCircuit(<<>>, "n1", NoLink, <<"fi
       reps=[('fixed', 2), ('fixed', 3)], acts=('NewCircuit', 'AddOp', 'AddSub', 'Apply'), linktypes=(), max_circs=2, max_objs=8,
       max_steps=6 if quick else 7, workers=8, min_emit=6, timeout=120, cap=1500 if quick else 20000,
       keep=lambda p: p[-1]['a'] == 'Apply' and any(s['a'] == 'AddSub' for s in p))
-    for dn in ('flatdir', 'copyapplied', 'qldir', 'acqdir'):
+    for dn in ('flatdir', 'copyapplied', 'qldir', 'acqdir', 'unroll3'):
         if dn in want:
             out.append({'name': dn, 'programs': directed(dn, quick), 'generated': 0, 'tlc_states': 0, 'tlc_generated': 0, 'mode': 'directed family (python)'})
             out[-1]['generated'] = len(out[-1]['programs'])
